@@ -434,8 +434,9 @@ impl DOPRI5 {
                     }
                 }
 
-                // Normal exit
-                if last {
+                // Normal exit (a step of nominal length can land exactly on xend without having
+                // been flagged: x + 1.01*h rounds to xend when h is a few ulps of x)
+                if last || x == xend {
                     h = hnew;
                     status = Status::Success;
                     break;
